@@ -169,14 +169,14 @@ def run(ctx):
         ([(2, 0), (0, 0)], {(2, 0): 1, (0, 0): 3}, {(0, 0): 2}),
     ]
     jobs = []
-    Ds = (2, 3) if ctx.thorough() else (2,)
+    Ds = (2, 3)
     for D in Ds:
         for order, dyn, const in sigs:
             if D == 3 and len(order) > 2:
                 continue
             for past in (1, 2, 3, 4):
                 for n in (1, 2, 3, 4):
-                    if not ctx.thorough() and (past, n) not in ((1, 1), (1, 3), (2, 2), (3, 2), (4, 3), (2, 4), (3, 1)):
+                    if not ctx.thorough() and D == 3 and (past, n) not in ((2, 3), (3, 2)):
                         continue
                     for entry in ("step", "map"):
                         jobs.append((ctx.repo, D, order, dyn, const, past, n, entry))
